@@ -688,6 +688,12 @@ class PartialTask(Task[P, R]):
         """
         return self.task.options(**task_options_update).partial(*self.args, **self.kwargs)
 
+    def export_options(self, **task_options_update: Any) -> "PartialTask[..., R]":
+        """
+        Returns a new PartialTask with exported option overrides.
+        """
+        return self.task.export_options(**task_options_update).partial(*self.args, **self.kwargs)
+
     @overload
     def get_task_option(self, option_name: str) -> Optional[Any]: ...
 
